@@ -38,6 +38,8 @@ type Converter struct {
 	ImplName   string
 	Spec       *vref.Spec
 	ExtraImports []string
+	// GlueImports are import lines only the glue package needs (custom function packages).
+	GlueImports []string
 	// Callables adds custom functions to the glue: key -> Go expression (qualified from the glue package).
 	Callables map[string]string
 }
@@ -202,6 +204,9 @@ func (c *Case) Glue(i int, cv *Converter) (path, body string) {
 	outImport := c.Root + "/" + cv.OutPkgPath
 	fmt.Fprintf(&sb, "\tgen %q\n", outImport)
 	for _, e := range cv.ExtraImports {
+		sb.WriteString("\t" + e + "\n")
+	}
+	for _, e := range cv.GlueImports {
 		sb.WriteString("\t" + e + "\n")
 	}
 	sb.WriteString(")\n\n")
